@@ -37,9 +37,12 @@ func (bla *BucketLeapArray) NewEmptyBucket() interface{} {
 }
 
 func (bla *BucketLeapArray) ResetBucketTo(bw *BucketWrap, startTime uint64) *BucketWrap {
-	atomic.StoreUint64(&bw.BucketStart, startTime)
+	// Clear the counters before publishing the new start time: as soon as the new
+	// start is visible, concurrent readers treat the bucket as current and must not
+	// see the data of the expired cycle (and concurrent adds must not be wiped).
 	mb := bw.Value.Load().(*MetricBucket)
 	mb.reset()
+	atomic.StoreUint64(&bw.BucketStart, startTime)
 	return bw
 }
 
